@@ -10,6 +10,12 @@ var Metas = map[string]Meta{
 		Technique: "symbolic execution of go/ssa + SMT (QF_BV) query per assertion; native replay of models",
 		Design:    "DESIGN.md §4 C06",
 	},
+	"C02": {
+		Text:      "The real RouteSendPID/RouteSendProcessID/RouteSendAlias run symbolically against a target process whose state (sleeping, running, terminated, unknown), mailbox bound (unbounded, 1, 2), fill level and fallback configuration (enabled, name = own/other/missing, fallback mailbox full or not) are all symbolic, with a fully symbolic priority value: success is reported exactly when the message sits in exactly one real queue (the one its priority selects, or the fallback's, wrapped with the original recipient and tag), an error means it sits nowhere and names the true cause. (Exactly-once handling and absence of lost wake-ups under concurrent senders and the runner are the subject of the concurrency entries when present in the evidence.)",
+		Note:      bmcNote + " Over-admission of a bounded mailbox by concurrent producers and a receiver that terminates meanwhile are outside the statement.",
+		Technique: "symbolic execution of go/ssa + SMT; native replay",
+		Design:    "DESIGN.md §4 C02",
+	},
 	"C03": {
 		Text:      "The real dequeue loop of act.Actor runs symbolically over the four real MPSC queues holding M messages under a symbolic class assignment (urgent/system/main/log) and message kind; the handling order is compared with the stable sort by class for every assignment. (Per-producer FIFO of the lock-free queue under concurrent pushes and the priority->queue mapping for every priority value are added by further entries as they are built; the evidence file lists the entries actually run.)",
 		Note:      bmcNote,
